@@ -10,7 +10,7 @@ ASSUMPTIONS = [
     "determine each other (DecodeBase58(EncodeBase58 b) = b on valid addresses) belongs to property C18 and is only "
     "exercised, not proved, here; address validation/normalisation (base58/59 + sha256 checksum; the type is derived from the text) is the Section "
     "variable addr_norm; theorems about codecs containing addresses carry the premise addr_norm_sound (result is a type "
-    "byte, at most VBK_ADDRESS_SIZE bytes, normalisation idempotent",
+    "byte, at most VBK_ADDRESS_SIZE bytes, normalisation idempotent)",
     "MerklePath::subject (not serialised) and the memoised hash_ fields are outside the model value; ids/hashes are "
     "compared by the implementation's own oracle only (VbkTx/VbkPopTx/BtcTx/BtcBlock hashes; ATV/VTB/VbkBlock ids need "
     "progpow and are not recomputed in the quick tier)",
